@@ -188,6 +188,7 @@ func check(c Case) vk.Verdict {
 			case "X-Url-Scheme":
 				want = h[1]
 			}
+			want = strings.ToLower(want) // scheme names compare without regard to case; Secure() and callers compare with "https"
 			if with.Scheme != want {
 				return vk.Failf("%s: trusted peer: Scheme()=%q, want %q", ctx, with.Scheme, want)
 			}
@@ -251,7 +252,26 @@ func genCase(t *rapid.T) Case {
 		c.Proxies = append(c.Proxies, rapid.SampledFrom(oddItems[:3]).Draw(t, "oddp"))
 	}
 	c.Peer = rapid.SampledFrom(peers).Draw(t, "peer")
-	if len(c.Proxies) > 0 && rapid.IntRange(0, 3).Draw(t, "peerlike") == 0 {
+	if rapid.IntRange(0, 3).Draw(t, "gencidr") == 0 {
+		// a range of any prefix length (the usual allocation sizes and the extremes), and a peer at one of its edges:
+		// the first or last address inside, or the nearest address outside
+		base := netip.MustParseAddr(rapid.SampledFrom([]string{"10.1.2.3", "8.8.8.8", "203.0.113.77", "2001:db8:aa:bb:cc:dd:ee:ff", "2a01:4f8:1:2:3:4:5:6", "fd12:3456:789a::1"}).Draw(t, "cidrbase"))
+		bits := rapid.SampledFrom([]int{8, 12, 16, 24, 31, 32}).Draw(t, "bits4")
+		if base.Is6() {
+			bits = rapid.SampledFrom([]int{16, 32, 32, 48, 56, 64, 96, 127, 128}).Draw(t, "bits6")
+		}
+		pf := netip.PrefixFrom(base, bits).Masked()
+		c.Proxies = append(c.Proxies, pf.String())
+		b := pf.Addr().AsSlice()
+		last := append([]byte{}, b...)
+		for i := bits; i < len(b)*8; i++ {
+			last[i/8] |= 0x80 >> (i % 8)
+		}
+		out := append([]byte{}, b...)
+		out[(bits-1)/8] ^= 0x80 >> ((bits - 1) % 8)
+		mk := func(x []byte) string { a, _ := netip.AddrFromSlice(x); return a.String() }
+		c.Peer = rapid.SampledFrom([]string{base.String(), mk(b), mk(last), mk(out), mk(last), base.String()}).Draw(t, "cidrpeer")
+	} else if len(c.Proxies) > 0 && rapid.IntRange(0, 3).Draw(t, "peerlike") == 0 {
 		// a peer whose address only resembles a configured one: the same 32 bits inside an IPv6 address that is not
 		// the IPv4-mapped form, or a neighbour
 		it := rapid.SampledFrom(c.Proxies).Draw(t, "like")
@@ -282,10 +302,10 @@ func genCase(t *rapid.T) Case {
 	add("X-Real-Ip", []string{"4.3.2.1", "nope"})
 	add("X-Client-Ip", ips)
 	add("X-Forwarded-Host", []string{"evil.test", "a.evil.test, b", "x.y.evil.test:99"})
-	add("X-Forwarded-Proto", []string{"https", "http", "ftp,https", "https,http"})
+	add("X-Forwarded-Proto", []string{"https", "http", "ftp,https", "https,http", "HTTPS", "Https,http"})
 	add("X-Forwarded-Protocol", []string{"https", "wss"})
 	add("X-Forwarded-Ssl", []string{"on", "off"})
-	add("X-Url-Scheme", []string{"https", "wss"})
+	add("X-Url-Scheme", []string{"https", "wss", "HTTPS"})
 	if len(c.Headers) > 1 && rapid.Bool().Draw(t, "shuffle") {
 		c.Headers = rapid.Permutation(c.Headers).Draw(t, "order")
 	}
